@@ -1,3 +1,21 @@
 import ClipVerif.Gen.Funcs
 namespace Proofs.C07
+open Gen
+
+theorem checkPrecision_eq (p : Int) :
+    checkPrecision p = if (p < -8 ∨ 8 < p) then .error Fault.panic else .ok () := by
+  unfold checkPrecision
+  by_cases h : p < -8 ∨ 8 < p
+  · simp [h]; rfl
+  · simp [h]; rfl
+
+theorem checkPrecision_iff (p : Int) : checkPrecision p = .ok () ↔ (-8 ≤ p ∧ p ≤ 8) := by
+  rw [checkPrecision_eq]
+  split
+  · simp; omega
+  · simp; omega
+
+theorem checkPrecision_rejects (p : Int) (h : p < -8 ∨ 8 < p) : checkPrecision p = .error Fault.panic := by
+  rw [checkPrecision_eq, if_pos h]
+
 end Proofs.C07
